@@ -1,6 +1,7 @@
 package main
 
 import (
+	stdctx "context"
 	"fmt"
 	"io"
 	"net/http"
@@ -12,7 +13,7 @@ import (
 
 // ---- E4: all sequences of the per-request accessors on one request ----
 
-var opNames = []string{"RouteInfo", "ContentType", "ResponseFormat", "Authorize", "BindAndValidate", "ResetAuth", "ResponseFormat(offers reversed)"}
+var opNames = []string{"RouteInfo", "ContentType", "ResponseFormat", "Authorize", "BindAndValidate", "ResetAuth", "ResponseFormat(offers reversed)", "CancelRequestContext"}
 
 // HistCase is the replayable form of one history.
 type HistCase struct {
@@ -83,7 +84,11 @@ func errStr(e error) string {
 func runHistory(s *site, rs reqSpec, ops []int, keys *[]string) (string, string) {
 	s.w.reset()
 	s.w.logging = false
-	req := rs.build()
+	// the request context is cancellable: cancellation is an event of the history, and what a stage
+	// produced before or after it is reused all the same
+	rctx, cancelReq := stdctx.WithCancel(stdctx.Background())
+	defer cancelReq()
+	req := rs.build().WithContext(rctx)
 	var body *countingBody
 	if rs.Body != "" {
 		body = &countingBody{r: strings.NewReader(rs.Body)}
@@ -213,6 +218,8 @@ func runHistory(s *site, rs reqSpec, ops []int, keys *[]string) (string, string)
 				}
 				r = rr
 			}
+		case 7: // the client goes away: the request context is cancelled
+			cancelReq()
 		case 5: // ResetAuth
 			rr := ctx.ResetAuth(r)
 			if rr == nil {
